@@ -4,6 +4,8 @@
 #include <osmium/io/detail/read_write.hpp>
 #include <osmium/io/compression.hpp>
 #include <osmium/io/gzip_compression.hpp>
+#include <osmium/io/bzip2_compression.hpp>
+#include <cstdio>
 #include <cerrno>
 #include <cstring>
 #include <system_error>
@@ -16,7 +18,8 @@ extern "C" void verif_assume(int cond) { if (!cond) g_assume_failed = 1; }
 extern "C" void verif_assume(int cond);          // symbolic engine: assumption on the path (path ends if it cannot hold)
 #endif
 
-enum { K_WRITE = 1, K_FSYNC, K_CLOSE, K_DUP, K_FSTAT, K_GZDOPEN, K_GZWRITE, K_GZCLOSE };
+enum { K_WRITE = 1, K_FSYNC, K_CLOSE, K_DUP, K_FSTAT, K_GZDOPEN, K_GZWRITE, K_GZCLOSE, K_FDOPEN, K_FCLOSE, K_BZWOPEN, K_BZWRITE, K_BZWCLOSE };
+static int g_stdio_fd = -1;
 static const long* g_rets; static const int* g_errnos; static unsigned g_nscript, g_ncalls;
 static long* g_calllog; static unsigned g_logcap;
 static const unsigned char* g_buf0;
@@ -48,6 +51,19 @@ gzFile gzdopen(int fd, const char*) { const long r = next_ret(K_GZDOPEN, fd, 0, 
 int gzwrite(gzFile, voidpc buf, unsigned len) { const long r = next_ret(K_GZWRITE, 0, len, buf); verif_assume(r == 0 || r == static_cast<long>(len)); return static_cast<int>(r); }
 int gzclose_w(gzFile) { const long r = next_ret(K_GZCLOSE, 0, 0, nullptr); verif_assume(r == 0 || (r >= -6 && r <= -1)); return static_cast<int>(r); }
 const char* gzerror(gzFile, int* errnum) { *errnum = -1; return "stub"; }
+// stdio on a descriptor: fdopen returns a stream or NULL + errno; fclose returns 0 or EOF + errno; fileno gives the descriptor back
+FILE* fdopen(int fd, const char*) noexcept { const long r = next_ret(K_FDOPEN, fd, 0, nullptr); verif_assume(r == 1 || r == -1); g_stdio_fd = fd; return r == 1 ? reinterpret_cast<FILE*>(const_cast<int*>(g_errnos)) : nullptr; }
+int fclose(FILE*) { const long r = next_ret(K_FCLOSE, g_stdio_fd, 0, nullptr); verif_assume(r == 0 || r == -1); return static_cast<int>(r); }
+int fileno(FILE*) noexcept { return g_stdio_fd; }
+// libbz2 writing: BZ2_bzWriteOpen gives a handle (BZ_OK) or NULL with an error code -1..-9; BZ2_bzWrite and BZ2_bzWriteClose64 report BZ_OK or an error code
+// through *bzerror; a successful close reports the compressed size (any 40-bit value)
+BZFILE* BZ2_bzWriteOpen(int* bzerror, FILE*, int, int, int) { const long r = next_ret(K_BZWOPEN, 0, 0, nullptr); verif_assume(r == 1 || (r >= -9 && r <= -1)); *bzerror = r == 1 ? BZ_OK : static_cast<int>(r); return r == 1 ? reinterpret_cast<BZFILE*>(const_cast<long*>(g_rets)) : nullptr; }
+void BZ2_bzWrite(int* bzerror, BZFILE*, void* buf, int len) { const long r = next_ret(K_BZWRITE, 0, static_cast<unsigned long>(len), buf); verif_assume(r == 0 || (r >= -9 && r <= -1)); *bzerror = static_cast<int>(r); }
+void BZ2_bzWriteClose64(int* bzerror, BZFILE*, int, unsigned int*, unsigned int*, unsigned int* out_lo, unsigned int* out_hi) {
+    const long r = next_ret(K_BZWCLOSE, 0, 0, nullptr); verif_assume(r >= -9 && r < (1L << 40));
+    if (r >= 0) { *bzerror = BZ_OK; if (out_lo) *out_lo = static_cast<unsigned int>(r & 0xffffffffL); if (out_hi) *out_hi = static_cast<unsigned int>(r >> 32); } else *bzerror = static_cast<int>(r);
+}
+const char* BZ2_bzerror(BZFILE*, int* errnum) { *errnum = -1; return "stub"; }
 }
 
 static void script(const long* rets, const int* errnos, unsigned n, long* calllog, unsigned logcap, const void* buf0) {
@@ -111,5 +127,27 @@ ENTRY int verif_gzip_compressor(int fd, int sync, unsigned long size_a, const lo
         } catch (...) { c.m_gzfile = nullptr; throw; }
         c.m_gzfile = nullptr;
     } catch (const osmium::gzip_error&) { rc = 2; } catch (const std::system_error&) { rc = 1; } catch (...) { rc = 3; }
+    return result(rc, ncalls);
+}
+
+// Bzip2Compressor: construct, nwrites x write(a), close(), close() again.  rc: 0 normal, 1 system_error, 2 bzip2_error, 3 other
+ENTRY int verif_bzip2_compressor(int fd, int sync, unsigned long size_a, unsigned nwrites, const long* rets, const int* errnos, unsigned n, long* calllog, unsigned logcap,
+                                 unsigned* ncalls, unsigned* stage, unsigned long* fsize) {
+    script(rets, errnos, n, calllog, logcap, nullptr);
+    int rc = 0; *stage = 0; *fsize = 0;
+    try {
+        std::string a(size_a, 'a');
+        struct Holder {       // the destructor of the compressor must not talk to the stubs any more once the scenario is over
+            alignas(osmium::io::Bzip2Compressor) unsigned char mem[sizeof(osmium::io::Bzip2Compressor)];
+        } h;
+        auto* c = new (h.mem) osmium::io::Bzip2Compressor{fd, sync ? osmium::io::fsync::yes : osmium::io::fsync::no};
+        *stage = 1;
+        g_buf0 = reinterpret_cast<const unsigned char*>(a.data());
+        for (unsigned i = 0; i < nwrites; ++i) c->write(a);
+        *stage = 2;
+        c->close(); *stage = 3;
+        c->close(); *stage = 4;
+        *fsize = c->file_size();
+    } catch (const osmium::bzip2_error&) { rc = 2; } catch (const std::system_error&) { rc = 1; } catch (...) { rc = 3; }
     return result(rc, ncalls);
 }
